@@ -218,6 +218,33 @@ def tagContent (r1 : Bytes) : Sum ByronRes (Bytes × Bytes) :=
   | some _ => .inl .unsupported
   | none => .inl (.err .byronCbor)
 
+/-- the tag-24 content `[hash, attributes, type]` (second `cbor.Decode` of `populateFromBytes`) -/
+def parsePayload (payload : Bytes) : ByronRes :=
+  match readHead payload with
+  | some (4, .val 3, p0) =>
+    match readBytes p0 with
+    | none => .err .byronCbor
+    | some (hash, p1) =>
+      match readHead p1 with
+      | some (5, .val n, p2) =>
+        match readAttrs n p2 with
+        | none => .unsupported
+        | some (ap, nraw, p3) =>
+          match readUint p3 with
+          | none => .err .byronCbor
+          | some (bt, _) =>
+            if hash.length ≠ 28 then .err .byronHash
+            else
+              match nraw with
+              | none => .ok ⟨hash, ap, none, bt⟩
+              | some raw =>
+                if raw.isEmpty then .ok ⟨hash, ap, none, bt⟩
+                else match readUint raw with
+                  | some (nv, _) => if nv ≥ 4294967296 then .err .byronCbor else .ok ⟨hash, ap, some nv, bt⟩
+                  | none => .err .byronCbor
+      | _ => .err .byronCbor
+  | _ => .err .byronCbor
+
 /-- `populateFromBytes`, Byron path, on `[tag(n, bytes), uint]` shapes. -/
 def parseByron (crc : Bytes → Nat) (b : Bytes) : ByronRes :=
   match readHead b with
@@ -234,31 +261,7 @@ def parseByron (crc : Bytes → Nat) (b : Bytes) : ByronRes :=
           else if r3 ≠ [] then .unsupported
           else if tag ≠ 24 then .err .byronPayload
           else if chk ≠ crc payload then .err .byronCrc
-          else
-            match readHead payload with
-            | some (4, .val 3, p0) =>
-              match readBytes p0 with
-              | none => .err .byronCbor
-              | some (hash, p1) =>
-                match readHead p1 with
-                | some (5, .val n, p2) =>
-                  match readAttrs n p2 with
-                  | none => .unsupported
-                  | some (ap, nraw, p3) =>
-                    match readUint p3 with
-                    | none => .err .byronCbor
-                    | some (bt, _) =>
-                      if hash.length ≠ 28 then .err .byronHash
-                      else
-                        match nraw with
-                        | none => .ok ⟨hash, ap, none, bt⟩
-                        | some raw =>
-                          if raw.isEmpty then .ok ⟨hash, ap, none, bt⟩
-                          else match readUint raw with
-                            | some (nv, _) => if nv ≥ 4294967296 then .err .byronCbor else .ok ⟨hash, ap, some nv, bt⟩
-                            | none => .err .byronCbor
-                | _ => .err .byronCbor
-            | _ => .err .byronCbor
+          else parsePayload payload
     | _ => .err .byronCbor
   | _ => .err .byronCbor
 
